@@ -78,7 +78,7 @@ def run(repo, rep, tier):
         if op.start_timer and op.start_timer[0].args:
             a = op.start_timer[0].args[0]
             nm = const_str(a) or (op.method_name if isinstance(a, ast.Name)
-                                  and a.id == 'method_name' else None)
+                                  and a.id == op.method_name_var else None)
         ok = ok and nm == f.name
         r4.ob(ok, f.name + ':start', {'operation': f.name,
                                       'start_timer_name': nm})
@@ -90,19 +90,20 @@ def run(repo, rep, tier):
         t = op.main_try
         in_fin = t is not None and op.stop_timer and any(
             x is op.stop_timer[0] for s in t.finalbody for x in ast.walk(s))
-        evars = set()
-        if t is not None:
+        evars = []
+        # the exception variable is identified by its role: the last
+        # argument of stop_timer()
+        ev = norm(op.stop_timer[0].args[-1]) if op.stop_timer and \
+            op.stop_timer[0].args and \
+            isinstance(op.stop_timer[0].args[-1], ast.Name) else None
+        if t is not None and ev:
             for h in t.handlers:
                 if h.name and any(isinstance(s, ast.Assign) and
-                                  norm(s) == 'exc = ' + h.name
+                                  norm(s) == '%s = %s' % (ev, h.name)
                                   for s in h.body):
-                    evars.add(h.name)
-        ok = in_fin and t is not None and len(evars) >= 1 and \
-            len([h for h in t.handlers]) == \
-            len([h for h in t.handlers if h.name and any(
-                isinstance(s, ast.Assign) and norm(s) == 'exc = ' + h.name
-                for s in h.body)]) and \
-            op.stop_timer[0].args and norm(op.stop_timer[0].args[-1]) == 'exc'
+                    evars.append(h.name)
+        ok = bool(in_fin and t is not None and ev and len(evars) >= 1 and
+                  len(t.handlers) == len(evars))
         r4.ob(ok, f.name + ':stop')
         if not ok:
             r4_ok_all = False
@@ -145,12 +146,16 @@ def run(repo, rep, tier):
     # ---- R5 in wbem_request ------------------------------------------------
     wreq = repo.func(HTTP, 'wbem_request')
     facts = stmt_facts(wreq.node)
+    rec_vars = {n.target.id for n in walk_no_nested(wreq.node)
+                if isinstance(n, ast.For) and isinstance(n.target, ast.Name)
+                and norm(n.iter).endswith('operation_recorders')}
     for st, (fs, _) in facts.items():
         if isinstance(st, (ast.If, ast.Try, ast.For, ast.While, ast.With)):
             continue
         for c in ast.walk(st):
             if isinstance(c, ast.Call) and \
-                    (dotted(c.func) or '').startswith('recorder.'):
+                    (dotted(c.func) or '').split('.')[0] in rec_vars and \
+                    (dotted(c.func) or '').count('.') == 1:
                 r5.sites += 1
                 ok = any(pol and norm(t_) == 'conn.operation_recorders'
                          for t_, pol in fs)
@@ -362,7 +367,16 @@ def run(repo, rep, tier):
                 elif isinstance(tgt, ast.Subscript) and \
                         isinstance(tgt.value, ast.Name):
                     tainted.add(tgt.value.id)
-    if 'auth' not in tainted or 'req_headers' not in tainted:
+    # the credential must be seen to flow into the headers handed to the
+    # transport (otherwise the taint analysis lost track of it)
+    post_args = set()
+    for c in walk_no_nested(wreq.node):
+        if isinstance(c, ast.Call) and \
+                (dotted(c.func) or '').endswith('session.post'):
+            for a in list(c.args) + [k.value for k in c.keywords]:
+                post_args |= {x.id for x in ast.walk(a)
+                              if isinstance(x, ast.Name)}
+    if len(tainted) < 2 or not (tainted & post_args):
         raise AnalysisError('wbem_request: credential flow not recognised '
                             '(tainted=%s)' % sorted(tainted))
     sinks = 0
@@ -370,7 +384,7 @@ def run(repo, rep, tier):
         if not isinstance(c, ast.Call):
             continue
         d = dotted(c.func) or ''
-        is_sink = d.startswith('recorder.') or d.startswith('warnings.') or \
+        is_sink = d.split('.')[0] in rec_vars or d.startswith('warnings.') or \
             d == 'print' or d.startswith('logger.') or \
             d.split('.')[-1] in ('AuthError', 'HTTPError', 'ConnectionError',
                                  'TimeoutError', 'HeaderParseError')
